@@ -51,6 +51,10 @@ func H18_num() {
 	x, y := val.Num(a), val.Num(b)
 	same := a == b
 	sv.Assert("reflexive", val.Equals(x, x))
+	// == is a tolerance of 1e-9 whatever the magnitude: numbers a thousandth or
+	// more apart are never equal, identical ones always are
+	sv.Assert("numbers-clearly-apart-are-not-equal", sv.Implies(sv.Or(a-b >= 0.001, b-a >= 0.001), !val.Equals(x, y) && !val.Equals(y, x)))
+	sv.Assert("identical-numbers-are-equal", sv.Implies(same, val.Equals(x, y)))
 	sv.Assert("same-rendering-iff-same-number", sv.StrEq(x.String(), y.String()) == same)
 	kx, ky := x.Key(), y.Key()
 	sv.Assert("same-key-iff-same-number", sv.StrEq(kx.String(), ky.String()) == same)
